@@ -97,6 +97,55 @@ func main() {
 		r.Explore(fmt.Sprintf("rings-%d", n), fmt.Sprintf("all 16^%d vertex lists x (2 spellings x %d rotations + reversal) x 81 query points", n, n),
 			mc.Opts{MaxDev: -1, Split: 2}, func(c *mc.Ctx) { ringCheck(c, n) })
 	}
+	// self-overlapping rings: regions wound twice are OUTSIDE under the even-odd rule (and inside under the
+	// non-zero winding rule); needs at least five edges, more than the exhaustive parts above enumerate
+	overlapping := [][][2]int64{
+		{{4, 8}, {6, 0}, {0, 5}, {8, 5}, {2, 0}},                                 // pentagram
+		{{0, 0}, {8, 0}, {8, 8}, {0, 8}, {1, 1}, {7, 1}, {7, 7}, {1, 7}},         // a square wound twice (inner loop inside the outer)
+		{{4, 8}, {7, 0}, {0, 6}, {8, 4}, {1, 1}, {6, 8}, {2, 0}},                 // heptagram-like star
+		{{0, 0}, {6, 0}, {6, 6}, {2, 6}, {2, 2}, {8, 2}, {8, 8}, {0, 8}},         // two overlapping loops in one stroke
+		{{0, 4}, {8, 4}, {8, 0}, {4, 0}, {4, 8}, {0, 8}, {0, 2}, {6, 2}, {6, 6}}, // pinwheel with crossings
+	}
+	r.Explore("self-overlapping", fmt.Sprintf("%d self-overlapping rings of 5..9 vertices on a 9x9 grid x every rotation x reversal x closed / unclosed x 361 half-step query points: exact even-odd", len(overlapping)), mc.Opts{MaxDev: -1}, func(c *mc.Ctx) {
+		base := overlapping[c.Choose(len(overlapping))]
+		n := len(base)
+		rot := c.Choose(n)
+		rev := c.Bool()
+		closed := c.Bool()
+		ring := make(orb.Ring, 0, n+1)
+		ex := make([]exact.IP, 0, n)
+		for i := 0; i < n; i++ {
+			j := (rot + i) % n
+			if rev {
+				j = (rot + n - i) % n
+			}
+			ring = append(ring, orb.Point{float64(base[j][0]), float64(base[j][1])})
+			ex = append(ex, exact.IP{2 * base[j][0], 2 * base[j][1]})
+		}
+		if closed {
+			ring = append(ring, ring[0])
+		}
+		twice := 0
+		for qx := int64(-1); qx <= 17; qx++ {
+			for qy := int64(-1); qy <= 17; qy++ {
+				pf := orb.Point{float64(qx) / 2, float64(qy) / 2}
+				want := contains(ex, exact.IP{qx, qy})
+				if got := planar.RingContains(ring, pf); got != want {
+					c.Failf("ring-self-overlap", "RingContains(%v, %v) = %v, exact even-odd (boundary included) says %v", ring, pf, got, want)
+					return
+				}
+				hole := orb.Polygon{{{-2, -2}, {10, -2}, {10, 10}, {-2, 10}, {-2, -2}}, ring}
+				if got := planar.PolygonContains(hole, pf); got != !want {
+					c.Failf("ring-self-overlap", "PolygonContains with the ring as a hole, point %v = %v, want %v | %v", pf, got, !want, ring)
+					return
+				}
+				if !want {
+					twice++
+				}
+			}
+		}
+		c.NonTrivial()
+	})
 	r.Explore("rings-0-2", "vertex lists of 0, 1, 2 points, closed and unclosed", mc.Opts{MaxDev: -1}, func(c *mc.Ctx) {
 		n := c.Choose(3)
 		ring := make(orb.Ring, n)
